@@ -68,6 +68,22 @@ def run(ck, ctx):
               P.show(P.of(out["showerEnergy"]))[:200])
     ck.guard(kinematics, "R07 kinematics")
 
+    # ---------------------------------------------------------------- every event gets an energy
+    def coverage():
+        from ..facets.pred import Pred
+        from .c04 import coverage_rules
+        from .common import scatter_chain
+        r = T.run_energy()
+        z = None
+        for cand in (r.value.args if r.value.op == "BinOp" else ()):
+            if scatter_chain(cand)[1]:
+                z = cand
+        if z is None:
+            raise AnalysisError("sampled-fraction array not identified in Taus.tau_energy")
+        coverage_rules(ck, "R07.7", I, Pred(I), z, T.betas, "beta_rad", "Taus.tau_energy",
+                       "tau energy (gamma >= 1 needs a sampled energy for every angle in the closed range)")
+    ck.guard(coverage, "R07.7")
+
     # ---------------------------------------------------------------- EAS.altDec
     def decay():
         fi = I.function(EAS_MOD, "EAS.altDec")
